@@ -244,13 +244,17 @@ Proof.
   - (* map *) exact (mapb_inv _ _ _ _ _ _ _ (IH tk) (IH tv) b v r H).
   - (* registered *)
     destruct (lookup_reg o name) as [d|]; [|discriminate].
-    destruct d as [p|fs|t'|n t'|tk tv].
+    destruct d as [p|fs|t'|n t'|tk tv|mm mu].
     + destruct (regable p); [|discriminate]. exact (prim_inv o false p b v r H).
     + apply bind_ok in H as ([l r1] & H1 & H). cbn beta iota in H. inversion H; subst.
       exact (fields_inv (tsize f o) _ _ fs (fun t _ => IH t) _ _ _ H1).
     + exact (seq_inv _ _ _ _ (IH t') b v r H).
     + exact (arr_inv _ _ _ _ (IH t') b v r H).
     + exact (mapb_inv _ _ _ _ _ _ _ (IH tk) (IH tv) b v r H).
+    + (* Marshaler type: nothing accounted *)
+      apply bind_ok in H as ([pl r1] & H1 & H). cbn beta iota in H.
+      apply bind_ok in H as (x & H2 & H). inversion H; subst.
+      apply get_lp_len in H1. unfold KA. split; lia.
 Qed.
 
 (* ---- func Decode --------------------------------------------------------------------------------- *)
